@@ -183,6 +183,22 @@ func sliceLinOps() (map[string]*linOp, any) {
 		r, _ := mSplice(&m, 0, 1, []int{7})
 		return m, fmt.Sprint(r, "ok")
 	})
+	add("Remove(==1)", func() string { s.Remove(func(v int) bool { return v == 1 }); return "" }, func(m []int) ([]int, string) {
+		for i, v := range m {
+			if v == 1 {
+				return append(append([]int{}, m[:i]...), m[i+1:]...), ""
+			}
+		}
+		return m, ""
+	})
+	add("Remove(==2)", func() string { s.Remove(func(v int) bool { return v == 2 }); return "" }, func(m []int) ([]int, string) {
+		for i, v := range m {
+			if v == 2 {
+				return append(append([]int{}, m[:i]...), m[i+1:]...), ""
+			}
+		}
+		return m, ""
+	})
 	add("RemoveAll(even)", func() string { s.RemoveAll(func(v int) bool { return v%2 == 0 }); return "" }, func(m []int) ([]int, string) {
 		out := []int{}
 		for _, v := range m {
@@ -371,8 +387,8 @@ var urlSafe = regexp.MustCompile(`^[A-Za-z0-9_.-]+$`)
 
 func init() {
 	registerLin("slice", sliceLinOps,
-		[]string{"Push(3)", "Unshift(4)", "Pop", "Shift", "AllAndClear", "Splice(0,1,7)", "Len", "RangeAndSplice(even)"},
-		[]string{"Push(3)", "Push(4)", "Unshift(3)", "Unshift(4)", "Pop", "Shift", "Len", "All", "AllAndClear", "Clear", "Get(0)", "Set(0,9)", "Splice(0,1,7)", "RemoveAll(even)", "RangeAndSplice(even)"}, 2)
+		[]string{"Push(3)", "Unshift(4)", "Pop", "Shift", "AllAndClear", "Splice(0,1,7)", "Len", "RangeAndSplice(even)", "Remove(==1)", "Remove(==2)"},
+		[]string{"Push(3)", "Push(4)", "Unshift(3)", "Unshift(4)", "Pop", "Shift", "Len", "All", "AllAndClear", "Clear", "Get(0)", "Set(0,9)", "Splice(0,1,7)", "RemoveAll(even)", "RangeAndSplice(even)", "Remove(==1)", "Remove(==2)"}, 3)
 	registerLin("set", setLinOps,
 		[]string{"Add(1)", "Add(2,3)", "Delete(1)", "Has(1)", "Len", "Clear", "Keys"},
 		[]string{"Add(1)", "Add(2,3)", "Delete(1)", "Delete(2,3)", "Has(1)", "Has(3)", "Len", "Keys", "Clear"}, 1)
